@@ -106,7 +106,7 @@ Qed.
 Print Assumptions c15_quicksort_sorted_given_partition.
 
 (* FULL STATEMENT (target, not proved in Coq):
-     Theorem c15_sliceby_sorted :
+     c15_sliceby_sorted :
        forall K V less, c15_strict_weak_order less -> forall keys vals s',
          srt_sliceby less keys vals = SOk s' ->
          StronglySorted (srt_le less) (firstn (Nat.min (length keys) (length vals)) (st_keys s')).
